@@ -65,11 +65,16 @@ def margin_probe(*args):
 COLS = ["a", "b", "y"]
 
 
+LABEL_ORDER = [None]  # column order of labelled samples in the current case (None: the reference's order)
+
+
 def row(a, y=None, b=0.25, cols=None):
     d = {"a": [float(a)], "b": [float(b)]}
     if y is not None:
         d["y"] = [int(y)]
     df = pd.DataFrame(d)
+    if y is not None and LABEL_ORDER[0]:
+        df = df[list(LABEL_ORDER[0])]  # the reference's column names in another order (columns are what they are by name)
     if cols:
         df = df.rename(columns=cols)
     return df
@@ -287,6 +292,9 @@ def make_reference(rng, N, acc_noise):
 
 
 def build(cfg, ctx, base):
+    LABEL_ORDER[0] = cfg.get("label_order")
+    if LABEL_ORDER[0]:
+        ctx.count("cases_with_permuted_label_columns")
     rng = np.random.default_rng(cfg["ref_seed"])
     ref = make_reference(rng, cfg["N"], cfg["noise"])
     if cfg.get("int_reference"):
@@ -319,7 +327,7 @@ def build(cfg, ctx, base):
 
 EXH_CFGS = [
     dict(N=6, k=2, oracle_len=2, sensitivity=1.0, noise=0.2, ref_seed=1),
-    dict(N=5, k=2, oracle_len=3, sensitivity=0.5, noise=0.3, ref_seed=2),
+    dict(N=5, k=2, oracle_len=3, sensitivity=0.5, noise=0.3, ref_seed=2, label_order=["b", "y", "a"]),
     dict(N=8, k=3, oracle_len=3, sensitivity=0.0, noise=0.2, ref_seed=3),
     dict(N=6, k=3, oracle_len=4, sensitivity=2.0, noise=0.35, ref_seed=4),
 ]
@@ -443,6 +451,9 @@ def run_case(case, ctx):
                sensitivity=float(rng.choice([0.0, 0.5, 1.0, 2.0, 3.0])),
                noise=float(rng.choice([0.1, 0.2, 0.35])), ref_seed=int(rng.integers(0, 10 ** 6)),
                int_reference=bool(rng.random() < 0.2), shuffled_index=bool(rng.random() < 0.3))
+    lo_ = [None, None, ["b", "a", "y"], ["y", "b", "a"], ["b", "y", "a"]][int(rng.integers(0, 5))]
+    if lo_:
+        cfg["label_order"] = lo_
     base = dict(cfg=cfg)
     r = build(cfg, ctx, base)
     if r is None:
